@@ -9,7 +9,7 @@ def _driver(focus=None):
 
 
 CORR = {"driver": _driver()}
-for _f in ("fault", "restart", "scaler", "upd", "cb", "budget", "fd", "log"):
+for _f in ("fault", "restart", "scaler", "upd", "cb", "budget", "fd", "log", "kern"):
     CORR["driver:" + _f] = _driver(_f)
 
 
